@@ -47,7 +47,7 @@ P = {
          "automatic pyproject discovery is not judged (black's project-root rule); formatter availability is a constant of the model", TECH + "spec-to-code replay through typer", "6 C18"),
  "C19": ("MC_Ident executes the emitted statements in one flat namespace that contains the template's own locals: without the reserved-name check TLC reports the capturing identifiers, with it C19_NoCapture holds; 85 identifiers x 3 roles x 3 backends are replayed: refused by the loader, or results equal to the renamed model; emitted code of the repository's models is trace-validated (rule redefinition)",
          "identifier universe of 85 names", TECH + "flat-namespace execution model, spec-to-code replay, trace validation", "6 C19"),
- "C20": ("MC_Depth: dependency chains of every depth up to 45, diamonds, conditionals; the reference expands every intermediate and differentiates with the specification's own differentiator; sympytools.states_matrix / rhs_matrix / jacobi_matrix are evaluated with exact substitution and compared entry by entry, state order against the generated code",
+ "C20": ("MC_Depth: dependency chains of every depth up to 45, diamonds, conditionals, alias chains, fan-in, reversed and time-dependent chains (13 shapes); rhs_matrix rows of structural models (unused intermediates, components) against the specification by row; the reference expands every intermediate and differentiates with the specification's own differentiator; sympytools.states_matrix / rhs_matrix / jacobi_matrix are evaluated with exact substitution and compared entry by entry, state order against the generated code",
          "exponentially growing shapes (diamond, conditional) capped at depth 12 / 11", TECH + "independent differentiator, spec-to-code replay", "6 C20"),
 }
 
